@@ -32,6 +32,10 @@ func checkMethodKey(r *Report, p *Prog) {
 	rule := "C13.method-key"
 	fn := p.MustFunc("saml", "", "GetSigningContext")
 	a := NewAnalysis(p)
+	// the method/key checks may live in an error-returning helper of the root package
+	a.Inline = func(f *ssa.Function) bool {
+		return p.InLibrary(f) && f.Pkg != nil && f.Pkg.Pkg.Path() == modPath && errIndex(f) >= 0 && f != fn
+	}
 	B := a.B
 	t := NewTable(r, a, fn)
 	rsaM := []string{"rsa-sha1", "rsa-sha256", "rsa-sha384", "rsa-sha512"}
